@@ -84,11 +84,12 @@ class HistGen:
     """Generates steps; each step = dict(op, expect='ok'|'err', new_sym,
     new_cls, scale, cls, dim, kind)."""
 
-    def __init__(self, rng, with_invalid=True, max_exp=3):
+    def __init__(self, rng, with_invalid=True, max_exp=3, simple_derived=0.0):
         self.rng = rng
         self.w = World()
         self.with_invalid = with_invalid
         self.max_exp = max_exp
+        self.simple_derived = simple_derived
 
     # -- valid declarations ---------------------------------------------
     def base_class(self, refless=False, quantum=None):
@@ -111,9 +112,17 @@ class HistGen:
         if not bases:
             return None
         for _ in range(10):
-            k = rng.randint(1, min(3, len(bases)))
-            chosen = rng.sample(bases, k)
-            items = [(c, rng.choice([-2, -1, 1, 1, 2, 3])) for c in chosen]
+            if rng.random() < self.simple_derived:
+                # product / quotient of two existing types, or a square
+                if len(bases) >= 2 and rng.random() < .8:
+                    chosen = rng.sample(bases, 2)
+                    items = [(chosen[0], 1), (chosen[1], rng.choice([1, -1]))]
+                else:
+                    items = [(rng.choice(bases), 2)]
+            else:
+                k = rng.randint(1, min(3, len(bases)))
+                chosen = rng.sample(bases, k)
+                items = [(c, rng.choice([-2, -1, 1, 1, 2, 3])) for c in chosen]
             dim = w.dim_of_class_def(items)
             if dim and w.class_with_dim(dim) is None:
                 break
